@@ -10,7 +10,7 @@ cross-checked mechanically (see crosscheck_reader_table).
 FUNCTIONS UNDER CONTRACT (verified with their real bodies)
   factored_code_delta, factored_data_offset   Ok(n) ==> n * factor == input (mathematical integers); input that is not
       expressible with the factor (or decreases) ==> exactly Err(InvalidFrameCodeOffset/InvalidFrameDataOffset(input));
-      expressible with a non-zero factor ==> Ok.  The DIVISION obligations are owned by C14 and FAIL on the pinned tree (F-wcfi-1/2).
+      expressible with a non-zero factor ==> Ok.  The DIVISION obligations are owned by C14 (they failed before eada994: F-wcfi-1/2).
   write_advance_loc     delta 0: nothing written; otherwise one advance instruction whose operand is the factored delta in a form
       wide enough (advance-delta), the smallest one (advance-minimal: boundaries 0x40, 0x100, 0x1_0000); decreasing or
       inexpressible offsets ==> Err(InvalidFrameCodeOffset(offset)).
@@ -19,14 +19,14 @@ FUNCTIONS UNDER CONTRACT (verified with their real bodies)
       DWARF 5 table 7.29, operand kinds from 6.4.2 (table DW_CFA), factored operands = offset / data_alignment_factor (exact),
       inexpressible offset ==> Err(InvalidFrameDataOffset(offset)); expression operands = ULEB128(size) then the expression's fields,
       and exactly `size` bytes.  30 tagged clauses generated from the two Python tables.
-  CommonInformationEntry::{has_augmentation, write}   returned offset, version gate per section kind, address size validated (FAILS:
-      F-wcfi-3), v1 return-address register fits a byte, header layout (checkpoint clauses cie-header: length, CIE id per section kind
+  CommonInformationEntry::{has_augmentation, write}   returned offset, version gate per section kind, address size validated (failed before
+      9595d4a: F-wcfi-3), v1 return-address register fits a byte, header layout (checkpoint clauses cie-header: length, CIE id per section kind
       and format, version, augmentation string z L P R S, v4 address/segment size, factors, return register byte/ULEB, augmentation
       data with its patched length), length word patched to the number of bytes after the initial length (cie-closed), size of the
-      length field + length is a multiple of the address size (cie-pad: FAILS for the 64-bit format, F-wcfi-4).
+      length field + length is a multiple of the address size (cie-pad: failed for the 64-bit format before a12b998, F-wcfi-4).
   FrameDescriptionEntry::write   (requires: CIE written at cie_offset <= len, valid address size, LSDA present iff the CIE has an LSDA
       encoding - the documented API requirement) header layout: relative 4-byte CIE pointer in .eh_frame / relocatable section offset
-      in .debug_frame, encoded or plain initial location + range, augmentation data (fde-header); fde-closed; fde-pad (FAILS: F-wcfi-4);
+      in .debug_frame, encoded or plain initial location + range, augmentation data (fde-header); fde-closed; fde-pad (failed before a12b998: F-wcfi-4);
       a range that does not fit the address size ==> Err.
 ASSUMED (TRUSTED, beyond wcore's)
   write::Expression::{size, write} (R-EXTBODY: their bodies use iterator adapters / Option::as_deref_mut): `size(enc, None)` returns
@@ -45,16 +45,22 @@ NOT DECIDED
     advance_loc between FDE instructions) is covered per call by the callee contracts, not as one sequence-valued clause.
   * Err cases of CommonInformationEntry::write say nothing about the section (partial entry; callers give up).
   * a zero data alignment factor with offset 0 (every operand reads back as n * 0 == 0): fields left open, see WCFI comment.
-FINDINGS on the pinned tree (python3 vx/run.py wcfi exits 1 with exactly these; reproducers native/src/bin/f_wcfi_<n>.rs)
+FINDINGS (all FIXED in /repo; reproducers native/src/bin/f_wcfi_<n>.rs print ok after the fix; patch native/f_wcfi_fix.patch;
+`python3 vx/run.py wcfi` exited 1 with exactly these 8 obligations on the snapshot tree and exits 0 from a12b998 on)
   F-wcfi-1  factored_code_delta `delta / factor`, factored_data_offset `offset / factor`: a zero factor
-            (CommonInformationEntry::new(enc, 0, 0, ra) is public API) panics "attempt to divide by zero".   [DESIGN F8]
-  F-wcfi-2  factored_data_offset: i32::MIN / -1 panics "attempt to divide with overflow" (same failed obligation; the
-            `factored_offset * factor` overflow report is on the same, already panicked, path).               [DESIGN F8]
-  F-wcfi-3  CommonInformationEntry::write never validates encoding.address_size: write_nop's `align - 1` underflows for 0, its
-            debug_assert fails for 3 (nop-align, cie-address-size, the augmentation_length debug_assert, cie-pad).
-  F-wcfi-4  padding counts the offset size instead of the size of the initial length field: 64-bit format entries are 4 bytes
-            off a multiple of an 8-byte address size (cie-pad, fde-pad), contrary to DWARF 5 section 6.4.1.
-  Minimal fixes are in the reproducers' headers; with them applied (scratch tree) the batch exits 0.
+            (CommonInformationEntry::new(enc, 0, 0, ra) is public API) panicked "attempt to divide by zero".   [DESIGN F8]
+            FIXED eada994: zero factor => Err(InvalidFrameCodeOffset / InvalidFrameDataOffset).
+  F-wcfi-2  factored_data_offset: i32::MIN / -1 panicked "attempt to divide with overflow" (same failed obligation; the
+            `factored_offset * factor` overflow report was on the same, already panicked, path).                [DESIGN F8]
+            FIXED eada994: => Err(InvalidFrameDataOffset).
+  F-wcfi-3  CommonInformationEntry::write never validated encoding.address_size: write_nop's `align - 1` underflowed for 0,
+            its debug_assert failed for 3 (nop-align, cie-address-size, the augmentation_length debug_assert, cie-pad).
+            FIXED 9595d4a: sizes other than 1|2|4|8 => Err(UnsupportedWordSize) at the top of CommonInformationEntry::write.
+  F-wcfi-4  padding counted the offset size instead of the size of the initial length field: 64-bit format entries were 4
+            bytes off a multiple of an 8-byte address size (cie-pad, fde-pad), contrary to DWARF 5 section 6.4.1.
+            FIXED a12b998: `initial_length_size()` in both write_nop calls.
+  The clauses that failed ([C14:cie-address-size], [C14:cie-pad], [C14:fde-pad], [C14:nop-align] at the call site, the
+  division obligations) are unchanged and now hold; a regression of any of the four fixes makes the batch exit 1 again.
 """
 import re
 from lib import *
@@ -426,12 +432,12 @@ broadcast use crate::wspec::group_wrote;''')
     ce.splice('write', ret='res', ensures=[
         f'[C14:cie-offset] res matches Ok(off) ==> off as nat == {W0}.len',
         f'[C14:cie-version] res is Ok ==> cfi_version_ok(eh_frame, {ENC}.version)',
-        # FAILS on the pinned tree: the address size is never validated (finding F-wcfi-3)
+        # failed before 9595d4a: the address size was never validated (finding F-wcfi-3)
         f'[C14:cie-address-size] res is Ok ==> valid_address_size({ENC}.address_size)',
         f'[C14:cie-ra-v1] res is Ok && !eh_frame && {ENC}.version == 1 ==> self.return_address_register.0 < 0x100',
         f'[C14:cie-closed] res is Ok ==> entry_closed({W0}, {W1}, {ENC}.format)',
         # 6.4.1: "The size of the length field plus the value of length must be an integral multiple of the address size."
-        # FAILS on the pinned tree for the 64-bit format (finding F-wcfi-4)
+        # failed for the 64-bit format before a12b998 (finding F-wcfi-4)
         f'[C14:cie-pad] res is Ok ==> ({W1}.len - {W0}.len) % ({ENC}.address_size as int) == 0',
         # (nothing is claimed about the section after an error: the entry is incomplete and the caller gives up)
         f'[C14:frame] res is Ok ==> {W1}.len >= {W0}.len && {W1}.be == {W0}.be'],
